@@ -57,7 +57,7 @@ def shards(tier, seed):
 
 def universe(seed, uid):
     rng = core.rng_for(seed, PROP, 'uni%d' % uid)
-    o = gen.Opts(max_types=3, nested_arrays=0.0, styles=('wrapped',), multi_return=False, methods=(1, 3), services=(1, 1), sub_names=True, seq_min=True)
+    o = gen.Opts(max_types=3, nested_arrays=0.0, styles=('wrapped',), multi_return=False, methods=(1, 3), services=(1, 1), sub_names=True, seq_min=True, array_item_occ=True)
     return gen.rand_universe(rng, o, uid=uid)
 
 
@@ -234,7 +234,7 @@ def judge(R, F, md, args, pos, label, lt, repro):
 
 def mech(who, fam, facets, lt, label, pos):
     kind = gen.shape(lt)[:28] if lt else ''
-    if who == 'accepted_invalid' and facets == ['min_occurs'] and lt and 'array' in lt and fam in ('json', 'yaml', 'msgpack', 'httprpc'):
+    if who == 'accepted_invalid' and facets == ['min_occurs'] and lt and 'array' in lt and fam == 'httprpc':
         return 'dictdoc_array_min_occurs_not_enforced'
     if who == 'accepted_invalid' and facets == ['lexical'] and label in ('lexical_spelling_other_case', 'lexical_spelling_python_float'):
         return 'lenient_spelling_accepted:%s' % label[len('lexical_spelling_'):]
